@@ -1,5 +1,6 @@
 import ElvModel.Go.Driver
 import ElvModel.C33.Model
+import ElvModel.C33.Styledown
 namespace C33
 open Go
 
@@ -81,6 +82,24 @@ def parseRhs (kind arg : String) : Option Rhs :=
 
 def wd0 : Int → Int := C34.OfRune []
 
+/-- The table of parsed style-character definitions: `hex(line)=rune=style` entries joined by `;`. -/
+def parseDefTable (s : String) : Option (List (Bytes × Rune × Style)) :=
+  if s = "-" then some []
+  else (s.splitOn ";").mapM fun e =>
+    match e.splitOn "=" with
+    | [h, r, st] => match hexDecode h, r.toNat?, parseStyle st with
+      | some line, some r, some st => some (line, r, st)
+      | _, _, _ => none
+    | _ => none
+
+def tablePd (tbl : List (Bytes × Rune × Style)) : DefParser := fun line => tbl.lookup line
+
+def showRes (r : Res Text) : String :=
+  match r with
+  | .ok t => showText t
+  | .exc _ => "err"
+  | .panic _ => "PANIC"
+
 def stepLine : List String → String
   | ["T", h, sts] => match hexDecode h, parseStylings sts with
     | some s, some ts => showText (T s ts)
@@ -117,7 +136,16 @@ def stepLine : List String → String
   | ["rtextconcat", t, h] => match parseText t, hexDecode h with
     | some t, some l => showText (Text.rconcat t l)
     | _, _ => "bad-op"
-  | ["sd", _, _] => "oracle-only"
+  | ["sd", t, defs, tbl] => match parseText t, hexDecode defs, parseDefTable tbl with
+    | some t, some defs, some tbl =>
+      match sdDerender wd0 (tablePd tbl) t defs with
+      | .ok m => s!"der={hexEnc m} ren={showRes (sdRender wd0 (tablePd tbl) m)}"
+      | .exc _ => "der=err"
+      | .panic _ => "PANIC"
+    | _, _, _ => "bad-op"
+  | ["sdren", m, tbl] => match hexDecode m, parseDefTable tbl with
+    | some m, some tbl => showRes (sdRender wd0 (tablePd tbl) m)
+    | _, _ => "bad-op"
   | _ => "bad-op"
 
 def driver : Driver := Driver.pure stepLine
